@@ -82,7 +82,17 @@ class Register:
             elif alias_from.size is not None and not isinstance(
                 alias_from.size, AnnotatedValue
             ):
+                start = alias_slice.start or 0
+                step = 1 if alias_slice.step is None else alias_slice.step
+                if step == 0:
+                    raise JaqalError("Slice step cannot be zero.")
                 if alias_slice.stop > alias_from.size:
+                    raise JaqalError("Index out of range.")
+                indices = range(start, alias_slice.stop, step)
+                if len(indices) > 0 and (
+                    min(indices[0], indices[-1]) < 0
+                    or max(indices[0], indices[-1]) >= alias_from.size
+                ):
                     raise JaqalError("Index out of range.")
 
     def __hash__(self):
@@ -206,7 +216,7 @@ class Register:
 
         context = context or {}
 
-        if self.size is not None and idx >= self.size:
+        if idx < 0 or (self.size is not None and idx >= self.size):
             raise JaqalError("Index out of range.")
         if self.fundamental:
             return (self, idx)
@@ -290,7 +300,7 @@ class NamedQubit:
                 from_size = int(alias_from.size)
             except JaqalError:
                 return
-            if alias_index >= from_size:
+            if alias_index >= from_size or alias_index < 0:
                 raise JaqalError("Index out of range.")
 
     def __hash__(self):
